@@ -110,3 +110,9 @@ package types
 //@ trusted
 //@ modifies p
 //@ ensures p.TunnelID == old(p.TunnelID) && p.Sequence == old(p.Sequence) && p.Prices == old(p.Prices)
+
+// C02 / C08: accepted parameters are coin lists the end-blocker can compute with - BOTH the minimum deposit and the base
+// packet fee are valid coin lists (sorted, positive: `Coins.Add` panics on an unsorted list) - and ordered, positive bounds
+//@ func (p Params) Validate
+//@ ensures err == nil ==> ext("Coins.IsValid", p.MinDeposit) && ext("Coins.IsValid", p.BasePacketFee)
+//@ ensures err == nil ==> 1 <= p.MinInterval && p.MinInterval <= p.MaxInterval && 1 <= p.MinDeviationBPS && p.MinDeviationBPS <= p.MaxDeviationBPS && 1 <= p.MaxSignals
